@@ -97,6 +97,14 @@ pub fn replay(cases: &str, verdicts: &str, table: &str) {
             let pid = json!({"kind": kind, "p": q, "x": x, "ref": fj(refp)});
             if c["boundary"][j].as_bool().unwrap() {
                 v.check(g.map(|g| g >= 0.0 && !g.is_nan()).unwrap_or(false), kind, "pdf support-end-point", &pid, json!(g.map(fj)));
+                // whatever convention the density follows at an end point, the log-density is its logarithm
+                if !d.is_discrete() {
+                    if let Some(gv) = g {
+                        let lg = d.ln_pf(x);
+                        let ok = match lg { Some(l) => if gv == 0.0 { l == f64::NEG_INFINITY } else if gv.is_infinite() { l == f64::INFINITY } else { (l - gv.ln()).abs() <= 1e-9 * (1.0 + gv.ln().abs()) }, None => false };
+                        v.check(ok, kind, "ln_pdf = ln(pdf) support-end-point", &pid, json!({"pdf": fj(gv), "ln_pdf": lg.map(fj)}));
+                    }
+                }
                 // a closed end of the documented support with a finite textbook value is a point of the support like any other
                 if c["closed_end"][j].as_bool().unwrap_or(false) && refp.is_finite() {
                     let ok = g.map(|g| if refp == 0.0 { g == 0.0 } else { ((g - refp) / refp).abs() <= 1e-9 }).unwrap_or(false);
@@ -110,6 +118,11 @@ pub fn replay(cases: &str, verdicts: &str, table: &str) {
             if !inside {
                 let side = if refs[..j].iter().any(|r| *r > 0.0) { "outside-right" } else { "outside-left" };
                 v.check(g == Some(0.0), kind, &format!("pdf {}", side), &pid, json!(g.map(fj)));
+                // the log-density is the logarithm of the density there too: -inf, not 0, NaN or a panic
+                if !d.is_discrete() {
+                    let lg = d.ln_pf(x);
+                    v.check(lg == Some(f64::NEG_INFINITY), kind, &format!("ln_pdf {}", side), &pid, json!(lg.map(fj)));
+                }
                 continue;
             }
             if refp.is_infinite() { continue; }
